@@ -327,6 +327,10 @@ def run_unit_symbolic(unit, mode, deadline=None):
         if unit.globals_init is not None:
             for k, v in unit.globals_init(S).items():
                 ctx.globals[k] = v
+                # the value of a module global is process-wide state: every mutable container *inside* it (the entries of a registry,
+                # the per-creator tables of the component ids, ...) is a shared location - a write to one fails `frame.shared_state`.
+                # Writes to the top-level object itself (a cache dict) are the declared inventory and are judged by the unit.
+                _mark_nested_shared(ctx, v, "%s.%s" % k, 0, set())
         ctx.assume(unit.pre(S, inp))
         old = unit.snapshot(inp)
         ctx.inp = inp
@@ -359,12 +363,33 @@ def run_unit_symbolic(unit, mode, deadline=None):
     return res
 
 
+def _mark_nested_shared(ctx, v, desc, depth, seen):
+    from .values import Obj, obj_fields
+    if id(v) in seen or depth > 6:
+        return
+    seen.add(id(v))
+    if isinstance(v, (list, dict, set, bytearray)):
+        if depth > 0:
+            ctx.shared_ids.setdefault(id(v), "object inside the module-level %s" % desc)
+        items = list(v.values()) if isinstance(v, dict) else list(v)
+        for x in items:
+            _mark_nested_shared(ctx, x, desc, depth + 1, seen)
+    elif isinstance(v, Obj):
+        for x in obj_fields(v).values():
+            _mark_nested_shared(ctx, x, desc, depth + 1, seen)
+
+
 def replay_native(unit, values, optimize=False):
     """run the REAL function on concrete inputs and evaluate the contract natively.
     returns (failed obligation names, description)"""
     S = ConcS(values)
     inp = unit.inputs(S)
-    pre = unit.pre(S, inp)
+    try:
+        pre = unit.pre(S, inp)
+    except Exception as e:
+        # a partial solver model may give bytes on which the precondition itself cannot be evaluated natively (e.g. text
+        # that is not ASCII): such an input is outside the precondition, not a crash of the replay
+        return None, "precondition not evaluable on this input (%s)" % type(e).__name__
     if not pre:
         return None, "input violates precondition"
     old = unit.snapshot(inp)
